@@ -104,12 +104,13 @@ enum OpKind {
   OP_SKIP,            // obj = decoder, a = attribute type
   OP_DIRECT_DECODE,   // stream, faults, trail (reusable method decoder)
   OP_BAD_ENCODE,      // obj = encoder, geom, buf: options the encoder rejects
+  OP_EXPERT_SETOPTS,  // obj = expert slot, opts (setters on the existing object)
   OP_NUM
 };
 const char *kOpNames[OP_NUM] = {"setopts",       "reset",         "encode",
                                 "expert_new",    "expert_encode", "direct_encode",
                                 "decode",        "skip",          "direct_decode",
-                                "bad_encode"};
+                                "bad_encode",    "expert_setopts"};
 
 struct Op {
   int kind = 0;
@@ -131,7 +132,8 @@ struct Op {
     j["a"] = a;
     j["trail"] = trail;
     j["trail_seed"] = static_cast<unsigned long long>(trail_seed);
-    if (kind == OP_SETOPTS || kind == OP_EXPERT_NEW || kind == OP_DIRECT_ENCODE)
+    if (kind == OP_SETOPTS || kind == OP_EXPERT_NEW || kind == OP_DIRECT_ENCODE ||
+        kind == OP_EXPERT_SETOPTS)
       j["opts"] = opts.ToJson();
     if (!faults.empty()) {
       Json f = Json::Array();
@@ -225,6 +227,17 @@ EnvPlan GeneratePlan(uint64_t seed, int size_class_max,
     if (w.n > 600) w.n = 600;
     p.geoms.push_back(w);
   }
+  // Explicit quantization promises values inside the caller's box: the
+  // geometries of one plan are all built for the same set of boxed attribute
+  // types, and option sets may request a box only for those types.
+  int plan_xq[5];
+  for (int t = 0; t < 5; ++t) {
+    plan_xq[t] = p.geoms[0].xq[t];
+    for (Workload &w : p.geoms) w.xq[t] = (plan_xq[t] > 0 && t != 1) ? plan_xq[t] : 0;
+  }
+  for (Workload &w : p.geoms)
+    for (int t = 0; t < 5; ++t)
+      if (w.xq[t] > 0 && w.qb[t] <= 0) w.qb[t] = 10;
   if (!corpus_files.empty()) {
     const int nc = static_cast<int>(r.Range(0, 2));
     for (int i = 0; i < nc; ++i)
@@ -232,6 +245,83 @@ EnvPlan GeneratePlan(uint64_t seed, int size_class_max,
   }
   const int nstreams = ng + static_cast<int>(p.corpus.size());
   const int nops = static_cast<int>(r.Range(2, 12));
+  // A quarter of the plans follow a reuse scenario instead of a free mix: one
+  // long-lived object, option changes between its uses (the histories in which
+  // leaked state can matter at all).
+  const uint64_t scenario = r.Fork("scenario").Below(12);
+  auto speed_opts = [&](Rng ro, int kind) {
+    Workload s;
+    s.kind = kind;
+    const uint64_t c = ro.Below(4);
+    s.espeed = c == 0 ? 10 : static_cast<int>(ro.Range(0, 10));
+    s.dspeed = c == 1 ? 10 : (ro.Chance(1, 2) ? s.espeed : static_cast<int>(ro.Range(0, 10)));
+    return s;
+  };
+  if (scenario < 3) {
+    const int g = static_cast<int>(r.Fork("sg").Below(ng));
+    const int slot = static_cast<int>(r.Fork("ss").Below(2));
+    for (int i = 0; i < nops; ++i) {
+      Rng ro = r.Fork(2000 + i);
+      Op op;
+      op.geom = g;
+      op.obj = slot;
+      op.buf = static_cast<int>(ro.Below(2));
+      op.append = ro.Chance(1, 4);
+      if (scenario == 0) {
+        // ExpertEncoder reuse.
+        if (i == 0) {
+          op.kind = OP_EXPERT_NEW;
+          Workload o = GenerateWorkload(ro.Fork("opts"), 0, p.geoms[g].kind);
+          CopyOptions(o, &op.opts);
+          if (ro.Chance(2, 3)) op.opts.method = -1;
+        } else if (i % 2 == 0 && ro.Chance(3, 4)) {
+          op.kind = OP_EXPERT_SETOPTS;
+          op.opts = speed_opts(ro.Fork("sp"), p.geoms[g].kind);
+        } else {
+          op.kind = OP_EXPERT_ENCODE;
+        }
+      } else if (scenario == 1) {
+        // Encoder reuse with option changes, resets and rejected encodes.
+        const uint64_t c = ro.Below(10);
+        if (i % 2 == 0 && c < 7) {
+          op.kind = OP_SETOPTS;
+          if (ro.Chance(1, 2)) {
+            op.opts = speed_opts(ro.Fork("sp"), p.geoms[g].kind);
+          } else {
+            Workload o = GenerateWorkload(ro.Fork("opts"), 0, p.geoms[g].kind);
+            CopyOptions(o, &op.opts);
+          }
+        } else if (c == 7) {
+          op.kind = OP_RESET;
+        } else if (c == 8) {
+          op.kind = OP_BAD_ENCODE;
+        } else {
+          op.kind = OP_ENCODE;
+          op.geom = static_cast<int>(ro.Below(ng));
+        }
+      } else {
+        // Reusable method encoder / decoder objects across different inputs.
+        op.geom = static_cast<int>(ro.Below(ng));
+        op.stream = static_cast<int>(ro.Below(nstreams));
+        if (ro.Chance(1, 2)) {
+          op.kind = OP_DIRECT_ENCODE;
+          Workload o = GenerateWorkload(ro.Fork("opts"), 0, p.geoms[op.geom].kind);
+          CopyOptions(o, &op.opts);
+        } else {
+          op.kind = OP_DIRECT_DECODE;
+          if (ro.Chance(1, 3)) {
+            std::vector<const std::vector<uint8_t> *> none;
+            op.faults = RandomFaultPlan(ro.Fork("fault"), 300, none);
+          }
+        }
+      }
+      op.opts.kind = p.geoms[op.geom].kind;
+      for (int t = 0; t < 5; ++t)
+        if (plan_xq[t] <= 0 || t == 1) op.opts.xq[t] = 0;
+      p.ops.push_back(op);
+    }
+    return p;
+  }
   bool expert_ready[2] = {false, false};
   for (int i = 0; i < nops; ++i) {
     Op op;
@@ -261,10 +351,23 @@ EnvPlan GeneratePlan(uint64_t seed, int size_class_max,
       op.opts.kind = p.geoms[op.geom].kind;
       expert_ready[op.obj] = true;
     } else if (pick < 54) {
-      op.kind = OP_EXPERT_ENCODE;
+      op.kind = ro.Chance(1, 3) ? OP_EXPERT_SETOPTS : OP_EXPERT_ENCODE;
       op.obj = static_cast<int>(ro.Below(2));
       if (!expert_ready[op.obj]) {
         op.kind = OP_ENCODE;
+      } else if (op.kind == OP_EXPERT_SETOPTS) {
+        Workload o = GenerateWorkload(ro.Fork("opts"), 0, p.geoms[op.geom].kind);
+        CopyOptions(o, &op.opts);
+        op.opts.kind = p.geoms[op.geom].kind;
+        // Mostly a small change, as a caller would make: speed only.
+        if (ro.Chance(2, 3)) {
+          Workload only_speed;
+          only_speed.kind = op.opts.kind;
+          only_speed.espeed = o.espeed < 0 ? 10 : o.espeed;
+          only_speed.dspeed = ro.Chance(1, 2) ? only_speed.espeed : 10;
+          if (ro.Chance(1, 3)) only_speed.espeed = only_speed.dspeed = 10;
+          op.opts = only_speed;
+        }
       }
     } else if (pick < 64) {
       op.kind = OP_DIRECT_ENCODE;
@@ -284,6 +387,15 @@ EnvPlan GeneratePlan(uint64_t seed, int size_class_max,
     } else {
       op.kind = OP_BAD_ENCODE;
       op.obj = static_cast<int>(ro.Below(2));
+    }
+    for (int t = 0; t < 5; ++t) {
+      // Boxes only where the geometries were built for one; other dimension
+      // counts than the geometry's own are fine (fewer, equal, more).
+      if (plan_xq[t] <= 0 || t == 1) {
+        op.opts.xq[t] = 0;
+      } else if (op.opts.qb[t] > 0 && op.opts.xq[t] <= 0 && ro.Fork(t).Chance(1, 2)) {
+        op.opts.xq[t] = static_cast<int>(ro.Fork(50 + t).Range(1, 4));
+      }
     }
     if (op.kind == OP_DECODE || op.kind == OP_DIRECT_DECODE) {
       if (ro.Chance(1, 3)) {
@@ -389,7 +501,7 @@ struct Objects {
 // Model of the persistent option state the API documents.
 struct Model {
   std::vector<Workload> enc_opts[2];  // SetOpts since the last Reset
-  Workload exp_opts[2];
+  std::vector<Workload> exp_opts[2];
   int exp_geom[2] = {-1, -1};
   int skip_mask[2] = {0, 0};
 };
@@ -461,6 +573,13 @@ void ExecOp(const EnvPlan &p, const Materials &m, const Op &op, Objects *o,
       }
       ApplyOptions(op.opts, g, o->exp[op.obj].get());
       o->exp_geom[op.obj] = op.geom;
+      r->ok = 1;
+      break;
+    }
+    case OP_EXPERT_SETOPTS: {
+      if (!o->exp[op.obj] || o->exp_geom[op.obj] < 0) break;
+      ApplyOptions(op.opts, *m.geoms[o->exp_geom[op.obj] % m.geoms.size()],
+                   o->exp[op.obj].get());
       r->ok = 1;
       break;
     }
@@ -765,8 +884,14 @@ uint64_t RunPlan(const EnvPlan &p, const std::string &repo,
           ref[k].ok = 1;
           continue;
         case OP_EXPERT_NEW:
-          model.exp_opts[op.obj] = op.opts;
+          model.exp_opts[op.obj].clear();
+          model.exp_opts[op.obj].push_back(op.opts);
           model.exp_geom[op.obj] = op.geom;
+          ref[k].ran = 1;
+          ref[k].ok = 1;
+          continue;
+        case OP_EXPERT_SETOPTS:
+          if (model.exp_geom[op.obj] >= 0) model.exp_opts[op.obj].push_back(op.opts);
           ref[k].ran = 1;
           ref[k].ok = 1;
           continue;
@@ -790,9 +915,17 @@ uint64_t RunPlan(const EnvPlan &p, const std::string &repo,
         mk.kind = OP_EXPERT_NEW;
         mk.obj = op.obj;
         mk.geom = model.exp_geom[op.obj];
-        mk.opts = model.exp_opts[op.obj];
+        mk.opts = model.exp_opts[op.obj][0];
         OpResult tmp;
         ExecOpInEnv(p, m, mk, &fresh, e0, k, &tmp);
+        for (size_t oi = 1; oi < model.exp_opts[op.obj].size(); ++oi) {
+          Op so;
+          so.kind = OP_EXPERT_SETOPTS;
+          so.obj = op.obj;
+          so.geom = mk.geom;
+          so.opts = model.exp_opts[op.obj][oi];
+          ExecOpInEnv(p, m, so, &fresh, e0, k, &tmp);
+        }
         fop.geom = mk.geom;
       } else if (op.kind == OP_DECODE) {
         for (int t = 0; t < 5; ++t)
@@ -844,7 +977,8 @@ uint64_t RunPlan(const EnvPlan &p, const std::string &repo,
       if (e == 0) {
         int slot = op.kind <= OP_ENCODE || op.kind == OP_BAD_ENCODE
                        ? op.obj
-                       : (op.kind <= OP_EXPERT_ENCODE ? 2 + op.obj
+                       : (op.kind <= OP_EXPERT_ENCODE || op.kind == OP_EXPERT_SETOPTS
+                              ? 2 + op.obj
                           : (op.kind == OP_DIRECT_ENCODE ? 4
                              : (op.kind == OP_DIRECT_DECODE ? 5 : 6 + op.obj)));
         if (touched[slot]++) ++*reused_ops;
@@ -878,7 +1012,8 @@ uint64_t RunPlan(const EnvPlan &p, const std::string &repo,
       }
       if (!x.ran) continue;
       const bool is_setter = op.kind == OP_SETOPTS || op.kind == OP_RESET ||
-                             op.kind == OP_SKIP || op.kind == OP_EXPERT_NEW;
+                             op.kind == OP_SKIP || op.kind == OP_EXPERT_NEW ||
+                             op.kind == OP_EXPERT_SETOPTS;
       if (is_setter) continue;
       const char *cls = e == 0 ? "history_dependence" : "environment_dependence";
       if (r.ok != x.ok || r.code != x.code) {
